@@ -1,4 +1,5 @@
 #!/bin/bash
+HERE="$(cd "$(dirname "$0")" && pwd)"
 # usage: seedtest.sh <patch.diff> <PROP> [tier] [more props...]
 # Applies the patch to a scratch copy of /repo and runs the given checks against it (VERIF_REPO).
 P="$1"; shift
@@ -11,7 +12,7 @@ for a in "$@"; do
 done
 for prop in "$@"; do
   case $prop in quick|thorough) continue;; esac
-  out=$(cd /verif && VERIF_REPO=$M ./check $prop $TIER 2>&1)
+  out=$(cd "$HERE" && VERIF_REPO=$M ./check $prop $TIER 2>&1)
   rc=$?
   echo "== $prop rc=$rc: $(echo "$out" | grep -m2 -A1 'VIOLATION\|OK \|INCONCLUSIVE' | tr '\n' ' ' | cut -c1-420)"
 done
